@@ -92,8 +92,8 @@ Theorem C15_missing_reset_refuted :
     /\ get (hp (run (cfg_of false false false) t (h1 ++ h2))) a
        <> get (hp (run (cfg_of false false false) t h1)) a.
 Proof.
-  exists tiny_table, [ERemoteReturn conn_closed],
-         [ERemoteFresh (mkStatus 7 (str "later") None)], 0%nat, 2.
+  exists tiny_table, [ERemoteReturn WQuery conn_closed],
+         [ERemoteFresh WQuery (mkStatus 7 (str "later") None)], 0%nat, 2.
   vm_compute. split; [reflexivity | discriminate].
 Qed.
 Print Assumptions C15_missing_reset_refuted.
